@@ -107,12 +107,14 @@ CLAIMED = {
                  "operation classes maps (x,y,z) as the class name states (contract generated from the name), keeps (x,y) inside a centred square "
                  "index range, and is injective (lemma per class over the real body) - a symmetry-derived row has no voxel twice if the basic row has "
                  "none; (e) the bundle of tangential rays traced for a bin is centred on the bin (statement kernel for the first ray's position, float, per "
-                 "number of rays), which a mirrored row needs to equal the directly computed one. Not decided: equality of float row values beyond that, non-negativity, the axial coordinate staying inside the image (float-derived "
+                 "number of rays), which a mirrored row needs to equal the directly computed one; (f) the constructor's decision which symmetry switches survive "
+                 "(two statement kernels + lemma, float conditions nondeterministic): the class invariant used by (c) and by C06 holds for every "
+                 "constructed object, TOF data keeps only the z-shift symmetry. Not decided: equality of float row values beyond that, non-negativity, the axial coordinate staying inside the image (float-derived "
                  "q / z_shift), that the image transform is the geometric counterpart of the bin transform, clear_cache/set_up."),
         "note": ("assumed contracts: calculate_proj_matrix_elems_for_one_bin, apply_tof_kernel, SymmetryOperation::transform_proj_matrix_elems_for_one_bin, "
                  "std::unordered_map; rows are abstract ids in (b); the virtual dispatch over the 16 operation classes is a generated switch "
                  "(class list and constructor parameter order scraped and checked); flag normalisation of the constructor (90 => 180, view counts, "
-                 "TOF data => only z-shift) assumed; induction over histories is argued, not machine-checked"),
+                 "TOF data => only z-shift) proved for the cylindrical branch (kernels K_sym_ctor_*), assumed for BlocksOnCylindrical; induction over histories is argued, not machine-checked"),
     },
     "C06": {
         "text": ("partial - decided: (a) find_basic_view_segment_numbers maps every view-segment of the data to a representative that lies in "
